@@ -1800,14 +1800,24 @@ Proof. unfold ref. apply strip_idem. Qed.
 (* =================================================================== 12. repeated pickle round trips *)
 Fixpoint iter_ref (k : nat) (n : node) : node := match k with O => n | S k' => iter_ref k' (ref n) end.
 
+Theorem trip_pickle_exact' c n :
+  wfb n = true -> own_ok n = true ->
+  links_resolve n = true -> links_unlocked n = true -> links_synced n = true -> ghost_fails c n = false ->
+  trip_pickle (c, n) = Ok (mkC None (root_det c) (cown c), ref n).
+Proof.
+  intros Hw Ho Hr Hu Hs Hc. unfold trip_pickle, dump_root. cbn [fst snd].
+  destruct (@restore_dump n Hw Ho Hr Hu Hs (root_det c) (slash (root_prefix c) (nlab n))) as [s [E1 [E2 E3]]].
+  rewrite E1, Hc, E3, E2. reflexivity.
+Qed.
+
 Theorem trip_pickle_exact c n :
   wfb n = true -> own_ok n = true ->
   links_resolve n = true -> links_unlocked n = true -> links_synced n = true -> cown c = true ->
   trip_pickle (c, n) = Ok (mkC None (root_det c) true, ref n).
 Proof.
-  intros Hw Ho Hr Hu Hs Hc. unfold trip_pickle, dump_root. cbn [fst snd].
-  destruct (@restore_dump n Hw Ho Hr Hu Hs (root_det c) (slash (root_prefix c) (nlab n))) as [s [E1 [E2 E3]]].
-  rewrite E1. unfold ghost_fails. rewrite Hc. cbn [negb andb]. rewrite E3, E2. reflexivity.
+  intros Hw Ho Hr Hu Hs Hc. rewrite trip_pickle_exact'; auto.
+  - rewrite Hc. reflexivity.
+  - unfold ghost_fails. rewrite Hc. reflexivity.
 Qed.
 
 Theorem trips_pickle_exact : forall k c n,
@@ -2856,11 +2866,130 @@ Proof.
   cbn [fold_left]. apply IH. apply apply_op_wf. exact Hn.
 Qed.
 
-(* =================================================================== 14. property-level statements for pickle *)
 Definition guards (n : node) : Prop :=
   wfb n = true /\ own_ok n = true /\
   links_resolve n = true /\ links_unlocked n = true /\ links_synced n = true.
 
+(* ---- repeated save + load of a root that is not a Macro / For (a workflow, a function node) ---- *)
+Lemma chain_kid_put fi fo gi go K c l : chain_kid (put fi fo gi go K) c l = chain_kid K c l.
+Proof. unfold put. apply chain_kid_map; [reflexivity | intros; apply chain_putk]. Qed.
+Lemma has_in_put fi fo gi go K c l : has_in (put fi fo gi go K) c l = has_in K c l.
+Proof.
+  unfold put. apply has_in_map; [reflexivity|]. intros k. unfold putk. cbn [nins]. rewrite map_map. reflexivity.
+Qed.
+Lemma outs_pred_put fi fo gi go (g : dchan -> bool) K :
+  (forall c l, g (set_dcon c l) = g c) ->
+  forallb (fun k => forallb g (nouts k)) (put fi fo gi go K) = forallb (fun k => forallb g (nouts k)) K.
+Proof.
+  intros Hg. unfold put. rewrite forallb_map. apply forallb_ext_in. intros k _. unfold putk. cbn [nouts].
+  rewrite forallb_map. apply forallb_ext_in. intros c _. apply Hg.
+Qed.
+
+Lemma resolve_adopted m : resolve_here (adopted m) = resolve_here m.
+Proof.
+  unfold resolve_here, adopted. cbn [nkind nins nouts nkids]. unfold relevel.
+  destruct (is_linked (nkind m)).
+  - f_equal.
+    + apply forallb_ext_in. intros c _. destruct (drcv c); try reflexivity. apply has_in_put.
+    + apply outs_pred_put. intros c l. reflexivity.
+  - f_equal. apply outs_pred_put. intros c l. reflexivity.
+Qed.
+Lemma unlocked_adopted m : unlocked_here (adopted m) = unlocked_here m.
+Proof.
+  unfold unlocked_here, adopted. cbn [nins nkids]. unfold relevel.
+  apply forallb_ext_in. intros c _. destruct (drcv c); try reflexivity. rewrite chain_kid_put. reflexivity.
+Qed.
+Lemma synced_adopted m : synced_here (adopted m) = synced_here m.
+Proof.
+  unfold synced_here, adopted. cbn [nins nouts nkids]. unfold relevel. f_equal.
+  - apply forallb_ext_in. intros c _. destruct (drcv c); try reflexivity. rewrite chain_kid_put. reflexivity.
+  - apply outs_pred_put. intros c l. reflexivity.
+Qed.
+
+Lemma allb_adopted p m :
+  (forall x, p (adopted x) = p x) -> (forall fi fo gi go k, p (putk fi fo gi go k) = p k) ->
+  allb p (adopted m) = allb p m.
+Proof.
+  intros Ha Hp. rewrite !allb_eq, Ha. f_equal. unfold adopted. cbn [nkids]. unfold relevel, put.
+  rewrite forallb_map. apply forallb_ext_in. intros k _. apply allb_putk. exact Hp.
+Qed.
+
+Lemma wfb_adopted m : wfb m = true -> wfb (adopted m) = true.
+Proof.
+  intros Hw. destruct (wfb_parts _ Hw) as [_ [Lk _]].
+  replace (wfb (adopted m)) with (wfb (set_nkids m (relevel (nkids m)))) by (rewrite !wfb_eq; destruct m; reflexivity).
+  unfold relevel. apply wfb_set_put; [exact Hw|]. apply level_ok_relevel. exact Lk.
+Qed.
+
+Lemma guards_adopted m : guards m -> guards (adopted m).
+Proof.
+  intros [Hw [Ho [Hr [Hu Hs]]]]. repeat split.
+  - apply wfb_adopted. exact Hw.
+  - exact Ho.
+  - unfold links_resolve. rewrite (allb_adopted _ _ resolve_adopted resolve_putk). exact Hr.
+  - unfold links_unlocked. rewrite (allb_adopted _ _ unlocked_adopted unlocked_putk). exact Hu.
+  - unfold links_synced. rewrite (allb_adopted _ _ synced_adopted synced_putk). exact Hs.
+Qed.
+Lemma guards_ref n : guards n -> guards (ref n).
+Proof.
+  intros [Hw [Ho [Hr [Hu Hs]]]]. repeat split.
+  - apply wfb_ref. exact Hw.
+  - rewrite own_ok_ref. exact Ho.
+  - unfold links_resolve. rewrite resolve_ref. exact Hr.
+  - unfold links_unlocked. rewrite unlocked_ref. exact Hu.
+  - unfold links_synced. rewrite synced_ref. exact Hs.
+Qed.
+
+Fixpoint iter_file (k : nat) (n : node) : node := match k with O => n | S k' => iter_file k' (adopted (ref n)) end.
+
+Lemma kind_adopted_ref n : nkind (adopted (ref n)) = nkind n. Proof. destruct n; reflexivity. Qed.
+Lemma strip_adopted_ref n : strip_root (adopted (ref n)) = adopted (ref n).
+Proof. rewrite ref_eq. unfold strip_root, adopted. cbn. rewrite !map_map. reflexivity. Qed.
+
+Theorem trip_file_exact' c n :
+  guards n -> ghost_fails c n = false ->
+  trip_file (c, n) = Ok (mkC None (root_det c) false, adopted (ref n)).
+Proof.
+  intros Hg Hc. pose proof Hg as [Hw [Ho [Hr [Hu Hs]]]]. unfold trip_file. rewrite trip_pickle_exact'; auto.
+  destruct (guards_ref Hg) as [Hw' [Ho' [Hr' [Hu' Hs']]]].
+  unfold links_resolve, links_unlocked, links_synced in Hr', Hu', Hs'. rewrite allb_eq in Hr', Hu', Hs'.
+  apply andb_true_iff in Hr', Hu', Hs'. destruct Hr' as [R1 R2], Hu' as [U1 _], Hs' as [S1 _].
+  rewrite adopt_exact; auto. intros k Hk. exact (forallb_In _ _ _ R2 Hk).
+Qed.
+
+Theorem trips_file_exact : forall k c n,
+  guards n -> is_linked (nkind n) = false ->
+  trips (S k) BFile (c, n) = Ok (mkC None (root_det c) false, iter_file (S k) n).
+Proof.
+  induction k as [|k IH]; intros c n Hg Hl.
+  - cbn [trips trip iter_file]. rewrite trip_file_exact'; auto. unfold ghost_fails. rewrite Hl, andb_false_r. reflexivity.
+  - change (trips (S (S k)) BFile (c, n))
+      with (match trip BFile (c, n) with Ok cn' => trips (S k) BFile cn' | Err e => Err e end).
+    cbn [trip]. rewrite trip_file_exact'; auto.
+    + rewrite IH; [reflexivity | apply guards_adopted; apply guards_ref; exact Hg | rewrite kind_adopted_ref; exact Hl].
+    + unfold ghost_fails. rewrite Hl, andb_false_r. reflexivity.
+Qed.
+
+Lemma same_file_step n : wfb n = true -> same (strip_root n) (adopted (ref n)).
+Proof.
+  intros Hw. apply same_adopted; [apply same_ref; exact Hw|].
+  destruct (wfb_parts _ (wfb_ref n Hw)) as [_ [Lk _]]. exact Lk.
+Qed.
+Lemma same_iter_file : forall k n, guards n -> same (strip_root n) (iter_file (S k) n).
+Proof.
+  induction k as [|k IH]; intros n Hg; pose proof Hg as [Hw _].
+  - apply same_file_step. exact Hw.
+  - change (iter_file (S (S k)) n) with (iter_file (S k) (adopted (ref n))).
+    eapply same_trans; [apply same_file_step; exact Hw|].
+    pose proof (IH (adopted (ref n)) (guards_adopted (guards_ref Hg))) as H. rewrite strip_adopted_ref in H. exact H.
+Qed.
+Lemma iter_file_no_own : forall k n, no_own_conns (iter_file (S k) n).
+Proof.
+  induction k as [|k IH]; intros n; [apply adopted_no_own; apply ref_no_own|].
+  change (iter_file (S (S k)) n) with (iter_file (S k) (adopted (ref n))). apply IH.
+Qed.
+
+(* =================================================================== 14. property-level statements for pickle *)
 Theorem roundtrip_pickle k c n :
   guards n -> cown c = true ->
   exists n', trips (S k) BPickle (c, n) = Ok (mkC None (root_det c) true, n') /\
@@ -2914,6 +3043,16 @@ Proof.
   { apply same_adopted; [apply same_ref; exact Hw|].
     destruct (wfb_parts _ (wfb_ref n Hw)) as [_ [Lk _]]. exact Lk. }
   split; [exact S|]. split; [apply adopted_no_own; apply ref_no_own|].
+  apply same_eq in S. destruct S as [_ [_ [_ [_ [_ [_ [_ [_ [_ [_ [_ [D _]]]]]]]]]]]]. exact D.
+Qed.
+
+Theorem roundtrip_file_repeated k c n :
+  guards n -> is_linked (nkind n) = false ->
+  exists n', trips (S k) BFile (c, n) = Ok (mkC None (root_det c) false, n') /\
+             same (strip_root n) n' /\ no_own_conns n' /\ din (nkids n') = din (nkids n).
+Proof.
+  intros Hg Hl. exists (iter_file (S k) n). split; [apply trips_file_exact; auto|].
+  pose proof (same_iter_file k Hg) as S. split; [exact S|]. split; [apply iter_file_no_own|].
   apply same_eq in S. destruct S as [_ [_ [_ [_ [_ [_ [_ [_ [_ [_ [_ [D _]]]]]]]]]]]]. exact D.
 Qed.
 
